@@ -404,9 +404,7 @@ def execute(plan: dict) -> dict:
         state['crash_pre'] = [ln for ln in pre.decode().split('\n') if ln]
         h.emit(pre + partial)
         if cr.get('with_exit'):
-            # (what a dead writer left in a pipe is read in one go: the scripted small reads stop here; see DESIGN.md 0.7 for what
-            # happens when more than one read is needed after the death)
-            h.chunk_plan = []
+            # (the scripted small reads go on: what the dead writer left behind takes several reads, as more than 16 KiB would)
             h.exit(1)
         else:
             w.after(0.3 + cr['exit_after'], lambda: h.exit(1))
